@@ -128,6 +128,8 @@ class _UnionNormType(_BasicNormType):
             return f"{obj.origin} {id(obj.origin)} {[self._make_orderable(arg) for arg in obj.args]}"
         if isinstance(obj, tuple):  # parameters of Callable, repr() of norm types depends on the spelling of the hint
             return f"({[self._make_orderable(el) for el in obj]})"
+        if isinstance(obj, Enum):  # a value of a nested literal, distinct enum classes can have the same representation
+            return f"{type(obj)}{id(type(obj))}{obj.name}"
         return repr(obj)  # str() does not distinguish `1` and `"1"`
 
     def _order_args(self, args: VarTuple[BaseNormType]) -> VarTuple[BaseNormType]:
